@@ -74,7 +74,7 @@ pub fn observe(ctx: &Ctx, bytes: &[u8]) -> Obs {
 pub fn run(ctx: &Ctx) -> Report {
   let mut report = Report::new(
     "generated accepted torrents: valid typed core (single/multi, every optional key) + unknown keys inside and outside info (i64 ints, byte strings incl. non-UTF-8, lists, nested dicts, deep chains) + trailing bytes; \
-     `show`, `show --json`, `show` from stdin, `link`; plus `create --link/--show` against a later `show` on the written file; non-trivial = carries an unknown key or trailing bytes; distinct by file hash",
+     `show`, `show --json`, `show` from stdin, `link`; plus `create --link/--show` against a later `show` on the written file (the output path empty beforehand, or with --force holding the same torrent, the same torrent with a foreign info key, or another file); non-trivial = carries an unknown key or trailing bytes; distinct by file hash",
   );
   report.rule.push_str("; link from standard input / with --select-only / with --peer; trailing bytes that are a whole torrent; keys other programs write (`meta version`, `file tree`, ...); upper-case md5sum; up to 55 000 pieces; `show` on a pseudo-terminal 30..200 columns wide; create --dry-run against the real run on a tree of 1001 files; values that look like structure (`4:info`) in comment, source, announce, name, node");
   report.correspondences.push("C04.infohash: infohash printed by show/show --json/link = Imdlv.Infohash.infohashFromInput (SHA-1 of re-encoded info) = SHA-1 of findSpan".into());
@@ -252,10 +252,32 @@ pub fn run(ctx: &Ctx) -> Report {
         args.push("http://t.example/a".into());
       }
     }
+    // what the output path holds beforehand: nothing; or, with --force, the torrent an earlier run of the same command
+    // wrote - as it was, or carrying a key another program added to its info dictionary - or some other file
+    let before = *rng.pick(&["absent", "absent", "same-torrent", "same-torrent-with-a-foreign-info-key", "other-file"]);
+    if before != "absent" {
+      if before == "other-file" {
+        sb.write("o.torrent", b"not a torrent");
+      } else {
+        let first = Cmd::args_owned(&ctx.imdl, args.clone()).cwd(&sb.root).run();
+        if first.ok() && before == "same-torrent-with-a-foreign-info-key" {
+          let t = std::fs::read(sb.path("o.torrent")).unwrap_or_default();
+          if let Some((_, b)) = bencode::find_span(&t, b"info") {
+            // (the info dictionary ends at b-1 with `e`; `zzz` sorts after every key imdl writes)
+            let mut t2 = t[..b - 1].to_vec();
+            t2.extend_from_slice(b"3:zzz5:cross");
+            t2.extend_from_slice(&t[b - 1..]);
+            std::fs::write(sb.path("o.torrent"), t2).unwrap();
+          }
+        }
+      }
+      args.push("--force".into());
+    }
     let out = Cmd::args_owned(&ctx.imdl, args.clone()).cwd(&sb.root).run();
-    report.case(Some(fnv(format!("{args:?}").as_bytes())));
+    report.case(Some(fnv(format!("{args:?}{before}").as_bytes())));
     report.hit("create --link --show");
-    let case = json!({"create_args": args});
+    report.hit(&format!("create --link --show, output path beforehand: {before}"));
+    let case = json!({"create_args": args, "output_path_beforehand": before});
     if !out.ok() {
       report.fail("property", "create-failed", case, out.stderr_s());
       continue;
